@@ -251,4 +251,8 @@ def run(ck):
     _m = lambda n: _il.import_module('props.' + n)
     _c7.ping_infra(ck, "5")  # the events of the other sources survive a failing batch only because they are level-triggered
     _c7.import_results(ck, _m("C16"), "3", "Poll::", "3")  # no bookkeeping of the poller wrapper runs ahead of the fallible call
-
+    # ---- shared clauses demonstrated by the twin round (seeding round 10) ------------------------------------------
+    from props import common as _c10
+    import importlib as _il10
+    _m10 = lambda n: _il10.import_module('props.' + n)
+    _c10.import_results(ck, _m10("C07"), "4", "DispatcherInner", "3")  # a failed enable() leaves the dispatcher unregistered (the state flag follows the source)
